@@ -1,0 +1,7 @@
+//go:build !verif
+// +build !verif
+
+package trie
+
+// verifPoint is a no-op unless built with the "verif" tag.
+func verifPoint(site string, a, b int32) {}
